@@ -1109,7 +1109,7 @@ func TestC36(t *testing.T) {
 	c36T = gpNewTally(r)
 	defer c36T.Flush()
 	r.Rule("a case = one generated operation sequence (10–300 ops) against one structure, cycling rhh.HashMap (capacity 1–256, load factor 50–100, 3–300 keys incl. empty/long/binary keys; Put/PutQuiet/Get/Grow/Reset/Keys/Elem vs map), bloom.Filter (m 1–100000 bits, k 1–13; Insert/Contains/Clone/Merge/NewFilterBuffer, no false negative), radix.Tree (keys over {a,b,c}^≤6, empty key, 4 KiB keys; Insert/Get/DeletePrefix/Minimum/Maximum/Len vs sorted map), tsdb.SeriesIDSet (3 sets; Add/AddMany/Remove/Contains/Merge/MergeInPlace/And/AndNot/Diff/Intersects/Equals/Clone/ForEach/Iterator/WriteTo→UnmarshalBinary[Unsafe]/Clear vs map[uint64]); plus rounds of concurrent SeriesIDSet writers/readers under the race detector; non-trivial = ≥2 live elements (radix: or a DeletePrefix happened); distinct = hash of (structure, parameters, first key / history)")
-	n := r.N(800, 10000)
+	n := r.N(800, 8000)
 	spent := map[string]float64{} // diagnostic only, never decides anything
 	for i := 0; i < n; i++ {
 		rg := r.Rand(i)
